@@ -214,3 +214,6 @@ func (ce *ContentExtractor) VerifFilterTrace(skipUnlikely bool) VerifFilterTrace
 	}
 	return d
 }
+
+// VerifDocumentElement is the element the extractor converts and reads metadata from.
+func (ce *ContentExtractor) VerifDocumentElement() *html.Node { return ce.documentElement }
